@@ -54,6 +54,9 @@ func comments(r *core.Rand, p int) []string {
 	var out []string
 	for k := r.Range(1, 2); k > 0; k-- {
 		out = append(out, r.Pick([]string{"", " a comment", "Foo: not a field", " ", "#", " indented: x"}))
+		if r.Chance(1, 12) { // a comment line longer than a 4 KiB read buffer
+			out[len(out)-1] = " " + r.Str("abcdefgh ijkl:mnop", r.Range(4100, 9000))
+		}
 	}
 	return out
 }
@@ -130,6 +133,9 @@ func Deb822Doc(r *core.Rand) model.Doc {
 	}
 	if r.Chance(1, 8) {
 		d.LeadLoose = []string{" licence header", ""}[:r.Range(1, 2)]
+		if r.Chance(1, 3) {
+			d.LeadLoose[0] = " " + r.Str("abcdefgh ijkl:mnop", r.Range(4100, 9000))
+		}
 	}
 	if np > 0 {
 		last := &d.Paras[np-1]
